@@ -51,14 +51,15 @@ func procOf(ctx context.Context) *proc {
 
 // gate parks procs at the instrumented points and owns the trace.
 type gate struct {
-	mu     sync.Mutex
-	free   bool // no parking (start-up, shutdown)
-	w      *vtrace.Writer
-	prog   int
-	seqOf  map[string]int // entry ULID -> acceptance sequence number within the schedule
-	nseq   int
-	interp *pdrv.Interp
-	raw    storage.Storage // undecorated inner storage (views)
+	mu      sync.Mutex
+	free    bool // no parking (start-up, shutdown)
+	w       *vtrace.Writer
+	prog    int
+	seqOf   map[string]int // entry ULID -> acceptance sequence number within the schedule
+	nseq    int
+	interp  *pdrv.Interp
+	uploads []string        // real upload ids of the schedule in creation order (model upload number n = uploads[n-1])
+	raw     storage.Storage // undecorated inner storage (views)
 }
 
 func (g *gate) emit(ev map[string]any) {
@@ -377,6 +378,66 @@ func (s *gatedInner) ListMultipartUploads(ctx context.Context, b storage.BucketN
 	r, err := s.Storage.ListMultipartUploads(ctx, b, o)
 	s.done(ctx, "ListMultipartUploads", err, false, nil)
 	return r, err
+}
+func (s *gatedInner) CreateMultipartUpload(ctx context.Context, b storage.BucketName, k storage.ObjectKey, ct *string, ck *string, o *storage.CreateMultipartUploadOptions) (*storage.InitiateMultipartUploadResult, error) {
+	s.g.park(ctx, "inner")
+	r, err := s.Storage.CreateMultipartUpload(ctx, b, k, ct, ck, o)
+	s.done(ctx, "CreateUpload", err, true, nil)
+	return r, err
+}
+func (s *gatedInner) UploadPart(ctx context.Context, b storage.BucketName, k storage.ObjectKey, u storage.UploadId, n int32, rd io.Reader, ci *storage.ChecksumInput) (*storage.UploadPartResult, error) {
+	s.g.park(ctx, "inner")
+	r, err := s.Storage.UploadPart(ctx, b, k, u, n, rd, ci)
+	s.done(ctx, "UploadPart", err, true, nil)
+	return r, err
+}
+func (s *gatedInner) CompleteMultipartUpload(ctx context.Context, b storage.BucketName, k storage.ObjectKey, u storage.UploadId, ci *storage.ChecksumInput, o *storage.CompleteMultipartUploadOptions) (*storage.CompleteMultipartUploadResult, error) {
+	s.g.park(ctx, "inner")
+	r, err := s.Storage.CompleteMultipartUpload(ctx, b, k, u, ci, o)
+	s.done(ctx, "CompleteUpload", err, true, nil)
+	return r, err
+}
+func (s *gatedInner) AbortMultipartUpload(ctx context.Context, b storage.BucketName, k storage.ObjectKey, u storage.UploadId) error {
+	s.g.park(ctx, "inner")
+	err := s.Storage.AbortMultipartUpload(ctx, b, k, u)
+	s.done(ctx, "AbortUpload", err, true, nil)
+	return err
+}
+func (s *gatedInner) PutObjectTagging(ctx context.Context, b storage.BucketName, k storage.ObjectKey, t map[string]string, o *storage.ObjectTaggingOptions) error {
+	s.g.park(ctx, "inner")
+	err := s.Storage.PutObjectTagging(ctx, b, k, t, o)
+	s.done(ctx, "PutTagging", err, true, nil)
+	return err
+}
+func (s *gatedInner) DeleteObjectTagging(ctx context.Context, b storage.BucketName, k storage.ObjectKey, o *storage.ObjectTaggingOptions) error {
+	s.g.park(ctx, "inner")
+	err := s.Storage.DeleteObjectTagging(ctx, b, k, o)
+	s.done(ctx, "PutTagging", err, true, nil)
+	return err
+}
+func (s *gatedInner) TransitionObjectStorageClass(ctx context.Context, b storage.BucketName, k storage.ObjectKey, class string, o *storage.TransitionObjectStorageClassOptions) error {
+	s.g.park(ctx, "inner")
+	err := s.Storage.TransitionObjectStorageClass(ctx, b, k, class, o)
+	s.done(ctx, "Transition", err, true, nil)
+	return err
+}
+func (s *gatedInner) DeleteBucketWebsiteConfiguration(ctx context.Context, b storage.BucketName) error {
+	s.g.park(ctx, "inner")
+	err := s.Storage.DeleteBucketWebsiteConfiguration(ctx, b)
+	s.done(ctx, "DeleteWebsite", err, false, nil)
+	return err
+}
+func (s *gatedInner) DeleteBucketCORSConfiguration(ctx context.Context, b storage.BucketName) error {
+	s.g.park(ctx, "inner")
+	err := s.Storage.DeleteBucketCORSConfiguration(ctx, b)
+	s.done(ctx, "DeleteCORS", err, false, nil)
+	return err
+}
+func (s *gatedInner) DeleteBucketLifecycleConfiguration(ctx context.Context, b storage.BucketName) error {
+	s.g.park(ctx, "inner")
+	err := s.Storage.DeleteBucketLifecycleConfiguration(ctx, b)
+	s.done(ctx, "DeleteLifecycle", err, false, nil)
+	return err
 }
 func (s *gatedInner) ListParts(ctx context.Context, b storage.BucketName, k storage.ObjectKey, u storage.UploadId, o storage.ListPartsOptions) (*storage.ListPartsResult, error) {
 	s.g.park(ctx, "inner")
